@@ -627,7 +627,10 @@ func (c10) Run(tp *Tape, opt RunOpt) *RunOut {
 					viol("O2-outcome", "value-and-error-confused", "the outcome of "+fn+" (body: "+f.Src+") was "+how[d.isErr]+" by this deref but the body "+map[bool]string{true: "threw it", false: "returned it as its value"}[f.NormalErr]+": "+line(d))
 				}
 				if f.NormalOK && d.res != f.Normal {
-					if !(d.isErr && cancellable && strings.Contains(d.res, "timeout")) {
+					// a body that catches what is thrown inside it may also catch the timeout of its own cancelled
+					// context and hand it on as its value
+					caughtTimeout := !d.isErr && cancellable && strings.Contains(f.Src, "(catch ") && strings.Contains(d.res, "timeout")
+					if !(d.isErr && cancellable && strings.Contains(d.res, "timeout")) && !caughtTimeout {
 						sig := "wrong-outcome"
 						if d.isErr && strings.Contains(d.res, "timeout") {
 							sig = "timeout-without-ended-context"
